@@ -124,6 +124,9 @@ var c05Exprs = func() []c05Expr {
 		c05Expr{"go-arg", "ident(", ")", false, true},
 		c05Expr{"go-arg2", `ident2("x", `, ")", false, true},
 		c05Expr{"userfn-arg", "uf(", ")", false, true},
+		c05Expr{"userfn-first-of-two", "uf2(", `, "ok")`, false, true},
+		c05Expr{"userfn-second-of-two", `uf2("ok", `, ")", false, true},
+		c05Expr{"userfn-middle-of-three", `uf3("a", `, `, "c")`, false, true},
 		c05Expr{"method-arg", "st.Echo(", ")", false, true},
 	)
 	return l
@@ -161,6 +164,8 @@ var c05Wraps = []c05Wrap{
 	{"else", func(e *c05Env, in string) string { return `<%= if (false) { %>n<% } else { %>` + in + `<% } %>` }},
 	{"for", func(e *c05Env, in string) string { return `<%= for (v) in one { %>` + in + `<% } %>` }},
 	{"fn", func(e *c05Env, in string) string { return `<% let ff = fn() { %>` + in + `<% } %><%= ff() %>` }},
+	{"for-iterator", func(e *c05Env, in string) string { return `<%= for (v) in range(1, 1) { %>` + in + `<% } %>` }},
+	{"for-map", func(e *c05Env, in string) string { return `<%= for (k, v) in {"k": 1} { %>` + in + `<% } %>` }},
 	{"helper-block", func(e *c05Env, in string) string { return `<%= blk() { %>` + in + `<% } %>` }},
 	{"contentFor", func(e *c05Env, in string) string {
 		return `<% contentFor("cf") { %>` + in + `<% } %>mid<%= contentOf("cf") %>`
@@ -180,7 +185,7 @@ var c05Wraps = []c05Wrap{
 	}},
 }
 
-const c05Prelude = `<% let uf = fn(a) { return a } %>`
+const c05Prelude = `<% let uf = fn(a) { return a } %><% let uf2 = fn(a, b) { return b } %><% let uf3 = fn(a, b, c) { return a } %>`
 
 func init() {
 	engine.Register(&engine.Prop{
@@ -199,7 +204,7 @@ func init() {
 			return s
 		},
 		Run:  c05Run,
-		Rule: "compositions wrapper^d ∘ statement-form ∘ expression-context^e ∘ failing-atom framed by literal text A…B: 12 block wrappers (top, if, else, for, fn body, helper block, contentFor→contentOf plain / with a default block / with data, contentOf default block, partial body, layout), 12 statement forms (emit, silent, let, assign, if/else-if condition, for iterable, return, partial/contentOf data), 35 expression contexts (each operand side of all 13 binary operators, !, array/hash element, index container/index, Go-helper/user-fn/method argument), 19 failing atoms (helper returning (T,err)/(err), method returning (T,err), failing helper/method as head of a .field/.method()/[i] chain, type error, index out of range, division by zero — each with a recording call so 'reached' is measured — unknown identifier, unknown function, unknown identifier as argument, unknown identifier inside a partial / a helper-rendered template, a method that does not exist on a pointer / value receiver). Oracle when the failing site was reached: err != nil, output empty, errors.Is(err, sentinel) for helper failures; an unknown identifier is tolerated exactly as direct condition or direct operand of ! == != && || and fails everywhere else. Non-trivial: the failing site was reached (counted).",
+		Rule: "compositions wrapper^d ∘ statement-form ∘ expression-context^e ∘ failing-atom framed by literal text A…B: 14 block wrappers (top, if, else, for over a slice / an Iterator / a map, fn body, helper block, contentFor→contentOf plain / with a default block / with data, contentOf default block, partial body, layout), 12 statement forms (emit, silent, let, assign, if/else-if condition, for iterable, return, partial/contentOf data), 38 expression contexts (each operand side of all 13 binary operators, !, array/hash element, index container/index, Go-helper/user-fn/method argument), 19 failing atoms (helper returning (T,err)/(err), method returning (T,err), failing helper/method as head of a .field/.method()/[i] chain, type error, index out of range, division by zero — each with a recording call so 'reached' is measured — unknown identifier, unknown function, unknown identifier as argument, unknown identifier inside a partial / a helper-rendered template, a method that does not exist on a pointer / value receiver). Oracle when the failing site was reached: err != nil, output empty, errors.Is(err, sentinel) for helper failures; an unknown identifier is tolerated exactly as direct condition or direct operand of ! == != && || and fails everywhere else. Non-trivial: the failing site was reached (counted).",
 		Bound: func(th bool) string {
 			if th {
 				return "d<=2 wrappers, e<=2 expression contexts"
@@ -216,7 +221,7 @@ func c05Run(t *engine.T, shard string) {
 	} else {
 		fmt.Sscan(shard, &wi)
 	}
-	deep := t.Thorough || wi == 0 || wi == 1 || wi == 3 || wi == 4 || wi == 8
+	deep := t.Thorough || wi == 0 || wi == 1 || wi == 3 || wi == 4 || wi == 5
 	for _, st := range c05Stmts {
 		for _, at := range c05Atoms {
 			c05One(t, wi, wj, st, nil, at)
